@@ -204,7 +204,7 @@ CHECKS["C20"] = {
 
 CHECKS["C14"] = {
     "package": "sched", "bin": "c14", "flavor": "sched", "replay": "rerun",
-    "shards": {"quick": 8, "thorough": 16},
+    "shards": {"quick": 16, "thorough": 16},
     "extra_parts": [{"package": "seq", "bin": "c14s", "flavor": "seq", "shards": {"quick": 4, "thorough": 16}}],
     "distinct_from_extra": "distinct_schedules",
     "level": "exploration",
@@ -218,7 +218,7 @@ CHECKS["C14"] = {
 
 CHECKS["C15"] = {
     "package": "sched", "bin": "c15", "flavor": "sched", "replay": "rerun",
-    "shards": {"quick": 8, "thorough": 16},
+    "shards": {"quick": 16, "thorough": 16},
     "distinct_from_extra": "distinct_schedules",
     "level": "exploration",
     "technique": "runtime monitoring under controlled scheduling (shuttle runtime switched in under --cfg sentinel_verif_sched): deadlock = every unfinished task blocked (scheduler verdict), panic in any task, and a sequential health probe of all five managers after join, over randomised and PCT(1..3) schedules of pairs/triples of manager calls running next to entries",
@@ -231,7 +231,7 @@ CHECKS["C15"] = {
 
 CHECKS["C16"] = {
     "package": "sched", "bin": "c16", "flavor": "sched", "replay": "rerun",
-    "shards": {"quick": 8, "thorough": 16},
+    "shards": {"quick": 16, "thorough": 16},
     "distinct_from_extra": "distinct_schedules",
     "level": "exploration",
     "technique": "runtime monitoring under controlled scheduling (shuttle): per-thread client-boundary results and the StateChangeListener log of every sampled schedule are checked by a trace oracle (path of the state machine, one winner per transition, one admission per Half-Open phase, no admission while Open before the retry time)",
